@@ -511,9 +511,7 @@ theorem collectOne_frame : ∀ (p : Pat) (f : Sexp) (env0 e : Env),
       cases f with
       | list l imp =>
           simp only [collectOne] at h
-          split at h
-          · cases h
-          · exact collectItems_frame children _ _ _ l env0 e h
+          exact collectItems_frame children _ _ _ l env0 e h
       | id n m =>
           unfold collectOne at h
           split at h
